@@ -33,13 +33,22 @@ class Remap:
     def rule(self, rid, text):
         pass
 
+    def _map(self, rule, construct):
+        """A mapping value is a rule id, or a callable construct -> rule id / None (to share part of a rule)."""
+        to = self.mapping.get(rule)
+        if callable(to):
+            to = to(construct)
+        return to
+
     def ok(self, rule, construct, detail=''):
-        if rule in self.mapping:
-            self.chk.ok(self.mapping[rule], construct, detail)
+        to = self._map(rule, construct)
+        if to:
+            self.chk.ok(to, construct, detail)
 
     def fail(self, rule, construct, detail, file=None, line=None):
-        if rule in self.mapping:
-            self.chk.fail(self.mapping[rule], construct, detail, file, line)
+        to = self._map(rule, construct)
+        if to:
+            self.chk.fail(to, construct, detail, file, line)
 
     def expect(self, cond, rule, construct, detail='', file=None, line=None):
         if cond:
